@@ -374,6 +374,10 @@ func runC06(w *core.World, r *core.Report) {
 					continue
 				}
 			}
+			if !isDefer && behindFlagUnsetInCallers(w, fn, fTerm) {
+				r.OK("R5", key, c.Pos(), "no-op: a helper whose every call site is only reached on the TERMINATE-unset edge")
+				continue
+			}
 			// (b) session restart: same function performs State.Restart before it
 			if rs := core.CallsTo(fn, "state.(*State).Restart"); len(rs) > 0 && !isDefer {
 				r.OK("R5", key, c.Pos(), "session restart (State.Restart in the same function)")
